@@ -887,6 +887,17 @@ fn parse_expr(
 
                 match op.as_rule() {
                     Rule::unary_minus => {
+                        // an int literal is lexed without its sign, and the digits 2147483648 alone only fit a
+                        // bigint: written without a suffix, `-2147483648` is the literal of the smallest int
+                        if let (Expr::Value(Value::Number(number::Number::BigInt(digits))), Some(operand)) = (&expr, &pair) {
+                            let unsuffixed = operand.as_rule() == Rule::number
+                                && operand.clone().into_inner().next().is_some_and(|literal| literal.as_rule() == Rule::integer);
+
+                            if unsuffixed && digits == "2147483648" {
+                                return Ok((Expr::Value(Value::Number(number::Number::Integer("-2147483648".to_owned()))), pair));
+                            }
+                        }
+
                         let ty = expr.for_type(&TypecheckFlags::use_class(user_data.get_type_of_executing_class())).to_err_vec()?;
                         if !ty.disregard_distractors(false).supports_negate() {
                             return Err(vec![new_err(pair.unwrap().as_span(), &user_data.get_source_file_name(), format!("{ty} cannot be negated"))])
